@@ -26,18 +26,17 @@ SpSeqs ==
 
 PathOf(c) == SpellAll(BasePath(Tpl(c.t)), c.sps)
 
-TplNames == {Templates[i].name : i \in DOMAIN Templates}
 \* every spelling sequence with the default headers, and (HdrCross) every header class with the
 \* documented spelling
 Cases ==
-    {c \in [m : Methods, t : TplNames, sps : SpSeqs, w : BOOLEAN, h : {DefaultHdr}] :
+    {c \in [m : Methods, t : TplNames, sps : SpSeqs, w : BOOLEAN, h : {DefaultHdr}, stack : Stacks] :
         ApplicableAll(BasePath(Tpl(c.t)), c.sps)} \cup
-    (IF HdrCross THEN [m : Methods, t : TplNames, sps : {<<"exact">>}, w : BOOLEAN, h : HdrClasses] ELSE {})
+    (IF HdrCross THEN [m : Methods, t : TplNames, sps : {<<"exact">>}, w : BOOLEAN, h : HdrClasses, stack : Stacks] ELSE {})
 
 Init ==
     /\ cs \in Cases
     /\ stage = "outer"
-    /\ rq = MkRq(cs.m, PathOf(cs), cs.w, cs.h)
+    /\ rq = MkRq(cs.m, PathOf(cs), cs.w, cs.h, cs.stack)
     /\ resp = NoResp
 
 Next ==
@@ -51,17 +50,17 @@ Spec == Init /\ [][Next]_vars
 GateInv == stage = "done" => C18_Gate(cs.w, resp.effect)
 LiveInv == stage = "done" => C18_Live(cs.m, cs.t, cs.sps, resp.effect)
 \* one decision per request (findOperation ranges over a Go map)
-DetInv == stage = "outer" => Cardinality(Serve(cs.m, PathOf(cs), cs.w, cs.h)) = 1
+DetInv == stage = "outer" => Cardinality(Serve(cs.m, PathOf(cs), cs.w, cs.h, cs.stack)) = 1
 \* the gate and the dispatcher agree: whatever reaches a handler was let through by the
 \* middleware for that very operation
 AgreeInv == stage = "handler" =>
-    \E t \in FindPathItems(rq.dec) : \E o \in FindOperation(t, rq.m) : o = rq.op /\ ShouldEnableEndpoint(o, rq.w)
+    rq.op \in FindOperationResults(rq) /\ rq.op # NoOp /\ ShouldEnableEndpoint(rq.op, rq.w)
 
 \* generation -----------------------------------------------------------------------------
 EmitInv ==
     stage = "outer" =>
-        PrintT(<<"CASE", ToJson([m |-> cs.m, t |-> cs.t, sps |-> cs.sps, w |-> cs.w, h |-> cs.h,
+        PrintT(<<"CASE", ToJson([m |-> cs.m, t |-> cs.t, sps |-> cs.sps, w |-> cs.w, h |-> cs.h, stack |-> cs.stack,
                                  target |-> Target(PathOf(cs)),
                                  raw |-> RawSegs(PathOf(cs)), dec |-> DecSegs(PathOf(cs)),
-                                 exp |-> SetToSeq(Serve(cs.m, PathOf(cs), cs.w, cs.h))])>>)
+                                 exp |-> SetToSeq(Serve(cs.m, PathOf(cs), cs.w, cs.h, cs.stack))])>>)
 =============================================================================
